@@ -171,9 +171,15 @@ func TestVerifC05Interest(t *testing.T) {
 				return false
 			}
 			nOps := c.Range(5, 40)
+			// half of the cases concentrate on one or two topics and two or three acting nodes, so that
+			// subscriptions, relays and their releases pile up on the same (node, topic)
+			actTopics, actNodes := len(topics), N
+			if c.Chance(0.5) {
+				actTopics, actNodes = c.Range(1, 2), min(N, c.Range(2, 3))
+			}
 			for op := 0; op < nOps && !c.Violated(); op++ {
-				x := nodes[c.Intn(N)]
-				t := topics[c.Intn(len(topics))]
+				x := nodes[c.Intn(actNodes)]
+				t := topics[c.Intn(actTopics)]
 				switch c.Intn(15) {
 				case 0, 1, 2:
 					h, err := handle(x, t)
@@ -319,6 +325,33 @@ func TestVerifC05Interest(t *testing.T) {
 			}
 			// ---- quiescence: announce retries (<= 1s each), dead-peer backoff (<= a few hundred ms x attempts), heartbeats
 			vSettle(20 * time.Second)
+			// ---- late comers: what a node tells a peer that connects only now (hello packet) must be its interest too;
+			// and some existing edges are torn down and rebuilt so that nodes greet each other afresh
+			late := map[*c05Node]*vPuppet{}
+			for i, x := range nodes {
+				if c.Chance(0.6) {
+					lp := n.NewPuppet(fmt.Sprintf("late%d", i), "", FloodSubID)
+					n.Connect(lp.ID(), x.nd.ID())
+					vSettle(20 * time.Millisecond)
+					lp.Open(x.nd.ID())
+					late[x] = lp
+				}
+			}
+			for k, K := 0, c.Range(0, 2); k < K; k++ {
+				i, j := c.Intn(N), c.Intn(N)
+				a, b := i, j
+				if a > b {
+					a, b = b, a
+				}
+				if i != j && edges[[2]int{a, b}] {
+					setEdge(i, j, false)
+					vSettle(time.Duration(c.Range(50, 1500)) * time.Millisecond)
+					setEdge(i, j, true)
+					note("edge(%d,%d) rebuilt", i, j)
+					c.Count("edges_rebuilt", 1)
+				}
+			}
+			vSettle(5 * time.Second)
 			// ---- oracle
 			for i, x := range nodes {
 				for _, t := range topics {
@@ -358,6 +391,9 @@ func TestVerifC05Interest(t *testing.T) {
 								x.nd.name, t, n.Names(got), n.Name(p), len(nodes[j].subs[t]), len(nodes[j].relays[t]))
 						}
 					}
+					for _, lp := range late {
+						delete(gm, lp.ID())
+					}
 					for p := range gm {
 						if !want[p] {
 							fail(map[string]string{"kind": "uninterested_peer_listed"}, "%s.ListPeers(%s)=%s lists %s which is not (connected and interested)", x.nd.name, t, n.Names(got), n.Name(p))
@@ -396,6 +432,21 @@ func TestVerifC05Interest(t *testing.T) {
 							fail(map[string]string{"kind": "announced_without_interest"}, "%s announced a subscription to %s which it never had an interest in", x.nd.name, s.GetTopicid())
 						}
 					}
+				}
+				if lp := late[x]; lp != nil {
+					told := map[string]bool{}
+					for _, wr := range lp.Wire() {
+						for _, s := range wr.RPC.Subscriptions {
+							told[s.GetTopicid()] = s.GetSubscribe()
+						}
+					}
+					for _, t := range topics {
+						if told[t] != x.interest(t) {
+							fail(map[string]string{"kind": "late_comer_told_wrong_interest"}, "%s told a peer that connected after the history subscribe=%v for %s, its interest is %v (subs=%d relays=%d fanoutOnly=%v)",
+								x.nd.name, told[t], t, x.interest(t), len(x.subs[t]), len(x.relays[t]), x.fanout[t])
+						}
+					}
+					c.Count("late_comers", 1)
 				}
 				for _, t := range topics {
 					if last[t] != x.interest(t) {
